@@ -195,6 +195,63 @@ fn bomb(kind: u64, n: usize) -> (String, Dag) {
     }
 }
 
+/// Programs with a wide source and target (W -> W, W = 2^(2^n) bits... i.e. a word of 2^n bits): the limits also
+/// apply to |source| + |target| and to |source| + |target| + extra cells.
+fn io_bomb_case(case: &mut Case) -> Outcome {
+    // (number of nested comps, log2 of the width)
+    let table: [(usize, usize); 9] = [(0, 20), (2, 20), (2, 29), (1, 30), (0, 30), (0, 31), (2, 30), (1, 31), (2, 31)];
+    let (comps, n) = table[case.idx as usize % table.len()];
+    let name = format!("io-{}-comps-word-2^{}", comps, n);
+    case.hint(&format!("bomb={}", name));
+    case.desc = name.clone();
+    case.hash = Some(hash_str(&name));
+    let mut d = Dag::default();
+    let mut cur = d.push(Op::Iden);
+    for _ in 0..comps {
+        let i = d.push(Op::Iden);
+        cur = d.push(Op::Comp(cur, i));
+    }
+    let w = ty::word(n);
+    let typing = match ast::infer(&d, false, Some((&w, &w))) {
+        Ok(t) => t,
+        Err(e) => return Outcome::Inconclusive(format!("harness: {} ill-typed {:?}", name, e)),
+    };
+    let (mc, mf) = model_bounds(&d, &typing);
+    let io = 2 * (1u128 << n);
+    let must_refuse = (1u128 << n) > MAX_CELLS || mc > MAX_CELLS || io > MAX_CELLS || io + mc > MAX_CELLS || mf + 2 > MAX_FRAMES;
+    let order = ast::natural_order(&d);
+    let redeem = match guard(|| prog::build_redeem(&d, &order, &[], Some((&w, &w)), Root::Free)) {
+        Ok(Ok(r)) => r,
+        Ok(Err(e)) => return violated("well-typed-program-rejected", format!("{}: {}", name, e)),
+        Err(pn) => return violated("panic:bounds-arithmetic", format!("building `{}` panicked: {}", name, pn)),
+    };
+    let start = alloc::window_start();
+    let mac = guard(|| BitMachine::for_program(&redeem).map(|_| ()));
+    let (peak, _) = alloc::window_end(start);
+    match mac {
+        Err(pn) => violated("panic:for_program", format!("{}: {}", name, pn)),
+        Ok(Err(e)) => {
+            if !must_refuse {
+                return violated("within-limits-refused", format!("`{}` needs {} + {} cells (within limits) but for_program refused: {}", name, io, mc, e));
+            }
+            if peak > (1 << 20) {
+                return violated("refusal-allocates", format!("`{}`: for_program refused but allocated {} bytes first", name, peak));
+            }
+            case.count("bomb.refused");
+            case.count("io-bomb.refused");
+            Outcome::Held
+        }
+        Ok(Ok(())) => {
+            if must_refuse {
+                return violated("beyond-limits-accepted", format!("`{}` needs |source|+|target| = {} and {} extra cells, beyond the hard limit {} for their sum, but for_program accepted it (and allocated {} bytes)", name, io, mc, MAX_CELLS, peak));
+            }
+            case.count("bomb.accepted");
+            case.count("io-bomb.accepted");
+            Outcome::Held
+        }
+    }
+}
+
 fn bomb_case(case: &mut Case) -> Outcome {
     let table: Vec<(u64, usize)> = vec![
         (0, 10), (0, 29), (0, 30), (0, 31), (0, 32), (0, 40), (0, 62), (0, 63), (0, 64), (0, 70),
@@ -263,6 +320,7 @@ fn bomb_case(case: &mut Case) -> Outcome {
 pub fn run(ctx: &Ctx) {
     let t = ctx.tier;
     ctx.run_sub("limit-bombs", Plan::enumerate(34, 0.2), |_rng, case| bomb_case(case));
+    ctx.run_sub("limit-bombs-wide-io", Plan::enumerate(9, 0.05), |_rng, case| io_bomb_case(case));
     ctx.run_sub("nested-programs", Plan::sample(t.pick(25_000, 1_200_000), 0.4), |rng, case| {
         let fuel = rng.urange(6, t.pick(40, 120));
         exec_case(rng, case, &TyParams { max_width: 48, max_depth: 4, max_word_n: 4 }, fuel, true)
